@@ -4,6 +4,7 @@
 name=$1; rounds=$2; shift 2
 out=/root/bgout/$name; mkdir -p $out/evidence $out/replays
 cp /verif/known_findings.json $out/
+( cd /verif/harness && git -C /repo diff --quiet && cargo build --profile vh --offline >/dev/null 2>&1 )
 cp /verif/target/vh/vh $out/vh
 bad=0
 for r in $(seq 1 $rounds); do
